@@ -131,6 +131,8 @@ pub struct Inner {
     pub last_constructed: Cell<Option<usize>>,
     pub actor_task: RefCell<HashMap<usize, usize>>,
     pub choices: RefCell<Vec<usize>>,
+    /// number of enabled alternatives at each choice point (for exhaustive schedule enumeration)
+    pub widths: RefCell<Vec<usize>>,
     pub cancelled: RefCell<Vec<usize>>,
     /// timer being registered right now (actor, timer id): consumed by the next aux spawn
     pub reg_timer: Cell<Option<(usize, usize)>>,
@@ -221,6 +223,7 @@ impl Backend for Be {
 pub struct Outcome {
     pub log: Vec<String>,
     pub choices: Vec<usize>,
+    pub widths: Vec<usize>,
     pub steps: usize,
     pub end: &'static str,
 }
@@ -239,6 +242,7 @@ pub fn run(seed: u64, cfg: ExecCfg, root: impl FnOnce(&Rc<Inner>)) -> Outcome {
         last_constructed: Cell::new(None),
         actor_task: RefCell::new(HashMap::new()),
         choices: RefCell::new(Vec::new()),
+        widths: RefCell::new(Vec::new()),
         cancelled: RefCell::new(Vec::new()),
         reg_timer: Cell::new(None),
         timer_task: RefCell::new(HashMap::new()),
@@ -349,6 +353,7 @@ pub fn run(seed: u64, cfg: ExecCfg, root: impl FnOnce(&Rc<Inner>)) -> Outcome {
             }
         };
         inner.choices.borrow_mut().push(pick);
+        inner.widths.borrow_mut().push(n_choices);
         steps += 1;
         if pick == runnable.len() {
             // advance time
@@ -421,7 +426,7 @@ pub fn run(seed: u64, cfg: ExecCfg, root: impl FnOnce(&Rc<Inner>)) -> Outcome {
     }
     hannibal::verif::uninstall();
     CUR.with(|c| *c.borrow_mut() = None);
-    Outcome { log, choices: inner.choices.borrow().clone(), steps, end }
+    Outcome { log, choices: inner.choices.borrow().clone(), widths: inner.widths.borrow().clone(), steps, end }
 }
 
 pub fn kind_str(k: TaskKind) -> String {
